@@ -28,6 +28,7 @@ pub fn write_ndjson(path: &str, recs: &[Value]) {
 
 thread_local! {
     static LAST_PANIC: std::cell::RefCell<Option<String>> = const { std::cell::RefCell::new(None) };
+    static GUARD_DEPTH: std::cell::Cell<u32> = const { std::cell::Cell::new(0) };
 }
 
 /// Install a quiet panic hook that remembers message + location per thread.
@@ -44,13 +45,20 @@ pub fn quiet_panics() {
             .location()
             .map(|l| format!("{}:{}", l.file(), l.line()))
             .unwrap_or_default();
+        if GUARD_DEPTH.with(|d| d.get()) == 0 {
+            // a panic of the harness itself, not of the code under test
+            eprintln!("harness panic at {loc}: {msg}");
+        }
         LAST_PANIC.with(|p| *p.borrow_mut() = Some(format!("{loc}: {msg}")));
     }));
 }
 
 /// Run `f`, turning a panic of the code under test into data.
 pub fn guarded<T>(f: impl FnOnce() -> T) -> Result<T, String> {
-    match catch_unwind(AssertUnwindSafe(f)) {
+    GUARD_DEPTH.with(|d| d.set(d.get() + 1));
+    let r = catch_unwind(AssertUnwindSafe(f));
+    GUARD_DEPTH.with(|d| d.set(d.get() - 1));
+    match r {
         Ok(v) => Ok(v),
         Err(_) => Err(LAST_PANIC
             .with(|p| p.borrow_mut().take())
